@@ -203,6 +203,27 @@ fn judge_boot(rec: &Rec, total: u32, b: &[u8; 512]) -> Option<(String, String)> 
     None
 }
 
+/// the boot-sector hook rejected the request: the real `format_volume` must reject it with the same error kind
+/// (binds the hook to the function it stands for; a request the real function accepts is judged in full)
+fn judge_rejected(rec: &Rec, total: u32) -> Option<(String, String)> {
+    let len = total as u64 * rec.bps as u64;
+    let base = Arc::new(Base::Proc { len, f: Box::new(move |_, out| out.fill(0)) });
+    let (st, mut dev) = new_dev(&base);
+    st.borrow_mut().sparse_zero = true;
+    st.borrow_mut().arm(None, Some(100_000));
+    let o = rec.opts().total_sectors(total);
+    let r = sess::guarded(|| fatfs::format_volume(&mut dev, o).map_err(sess::ek));
+    let ctx = format!("{rec:?} total {total}");
+    let hit = st.borrow().budget_hit;
+    match r {
+        Err(p) => Some((format!("C06/panic/format_volume/{}", panic_class(&p)), format!("{ctx}: {p}"))),
+        Ok(Err(ErrKind::InvalidInput)) => None,
+        Ok(Err(_)) | Ok(Ok(())) if hit => Some(("C06/machinery/hook-rejects-but-format-volume-writes".into(), ctx)),
+        Ok(Err(e)) => Some((format!("C06/rejected-with-{}", e.name()), ctx)),
+        Ok(Ok(())) => Some(("C06/machinery/hook-rejects-but-format-volume-accepts".into(), ctx)),
+    }
+}
+
 /// full format on a sparse device + every check on the resulting image
 fn judge_full(rec: &Rec, total: u32) -> Option<(String, String)> {
     let len = total as u64 * rec.bps as u64;
@@ -330,6 +351,7 @@ pub fn run(tier: &str) -> i32 {
     let recs = grid(th);
     let evals = AtomicU64::new(0);
     let fulls = AtomicU64::new(0);
+    let rejected_real = AtomicU64::new(0);
     let capped = AtomicU64::new(0);
     let results: Vec<(Vec<(String, String)>, BTreeMap<String, u64>)> = recs
         .par_iter()
@@ -358,6 +380,10 @@ pub fn run(tier: &str) -> i32 {
                     Ok(Err(ErrKind::InvalidInput)) => {
                         if rec.is_default() && t >= 42 {
                             v.push(("C06/default-options/rejected".into(), format!("default options, {t} sectors rejected")));
+                        }
+                        rejected_real.fetch_add(1, Ordering::Relaxed);
+                        if let Some(x) = judge_rejected(rec, t) {
+                            v.push(x);
                         }
                     }
                     Ok(Err(e)) => v.push((format!("C06/rejected-with-{}", e.name()), format!("{rec:?} total {t}"))),
@@ -486,6 +512,7 @@ pub fn run(tier: &str) -> i32 {
         "exhaustive": ncap == 0,
         "records": recs.len(),
         "full_format_cases": fulls.load(Ordering::Relaxed),
+        "rejected_requests_replayed_on_format_volume": rejected_real.load(Ordering::Relaxed),
         "outcome_classes": classes,
         "records_skipped_by_deadline": ncap,
         "full_range_sweeps": sweep,
